@@ -241,6 +241,9 @@ FocusT(nt) ==
                              OPEN("PropertyGraphLabelAndPropertiesList", "Properties"), LOPEN("LabelAndProperties"),
                              OPEN("PropertyGraphLabelAndProperties", ""), N0("Label", "PgLabel"), N0("Properties", "PgProps"), CLOSE, LCLOSE, CLOSE, CLOSE,
                              LCLOSE, T(")"), CLOSE, CLOSE, CLOSE>>) >>
+    [] nt = "FD_CS" -> << Tmpl("CreateChangeStream", <<T("CREATE"), KW("CHANGE"), KW("STREAM"), N("Name", "DdlId"),
+                             OPEN("ChangeStreamForTables", "For"), T("FOR"), LOPEN("Tables"), N0("", "ChangeStreamForTable"), T(","), N0("", "ChangeStreamForTable"),
+                             OPT(<<T(","), N0("", "ChangeStreamForTable")>>), LCLOSE, CLOSE, O("Options", "Options")>>) >>
     [] nt = "FM_Return" -> << Tmpl("Delete", <<KW("DELETE"), T("FROM"), N("TableName", "DmlTablePath"), N("Where", "Where"),
                                 OPEN("ThenReturn", "ThenReturn"), T("THEN"), KW("RETURN"), OPEN("WithAction", "WithAction"), T("WITH"), KW("ACTION"), O("Alias", "AsAliasReq2"), CLOSE,
                                 L("Items", "ReturnItem", ",", 1), CLOSE>>) >>
